@@ -124,9 +124,10 @@ CHECKS = {
     "C04": ("DESIGN.md#c04--poplar1-robustness",
             "Poplar1.tla model: exact characterization of the reports accepted for every randomness and accept-set bound for all others (TLC over GF(17)); trace "
             "validation of tampered real runs: whenever both aggregators finish, the output shares sum to a zero or one-hot vector",
-            "Exact accept-set analysis on the model; on the real code every explored single-bit alteration of every message either is refused or leaves a zero/one-hot "
-            "contribution, as judged by TLC from the recorded shares.",
-            "Bit flips only on the real code; re-programmed client strategies on the model only."),
+            "Exact accept-set analysis on the model; on the real code every explored single-bit alteration or substitution of every message either is refused or leaves a "
+            "zero/one-hot contribution, every state/message variant pair behaves as the shared round predicate says, and constructed malicious clients (re-programmed IDPF "
+            "values, shifted correlated-randomness shares) are accepted exactly when the model says they are well-formed, all judged by TLC from the recorded shares.",
+            "Constructed clients keep the A share honest; other key material only through bit flips."),
     "C14": ("DESIGN.md#c14--multithreaded-gadget-evaluation-equals-serial",
             "TLA+ model of rayon's fold/reduce contract (ParSum.tla): every schedule checked by TLC, with negative controls; observed schedules of the real "
             "scheduler (hook H5) validated against the contract together with byte equality of outputs, at gadget level and end to end",
